@@ -159,7 +159,8 @@ func c01Case(c *Ctx) *Result {
 		p.SetChunker(simnet.C2S, chunkerFor(chunkC2S, c.Seed*7+int64(c.Idx)*3+int64(p.ID)))
 		p.SetChunker(simnet.S2C, chunkerFor(chunkS2C, c.Seed*11+int64(c.Idx)*5+int64(p.ID)))
 	}
-	cm, err := env.NewClient(0, "")
+	ui := r.Intn(2)
+	cm, err := env.NewClient(ui, "")
 	if err != nil {
 		res.Verdict, res.Detail = Inconclusive, "client: "+err.Error()
 		return res
@@ -173,8 +174,8 @@ func c01Case(c *Ctx) *Result {
 	boundaryHit := 0
 	for i, r0 := range rs {
 		total += r0.ReadN[0] + r0.ReadN[1]
-		if r0.ServerUser != "" && r0.ServerUser != "alice" {
-			res.Also = append(res.Also, SideFinding{"C07", "wrong-user", fmt.Sprintf("session %d attributed to %q", i, r0.ServerUser)})
+		if r0.Accepted && r0.ServerUser != env.Cfg.Users[ui].Name {
+			res.Also = append(res.Also, SideFinding{"C07", "wrong-user", fmt.Sprintf("session %d of user %q attributed to %q", i, env.Cfg.Users[ui].Name, r0.ServerUser)})
 		}
 		for d := 0; d < 2; d++ {
 			for _, w := range plans[i].W[d] {
